@@ -65,6 +65,71 @@ fn check_text(t: &mut Tally, text: &[u8]) {
     }
 }
 
+/// Bytes of which the statement does not say whether they count as white space.
+const AMBIGUOUS: [u8; 5] = [0x0b, 0x0c, 0x0d, 0x85, 0xa0];
+
+/// Self-consistency form of the property for texts containing such bytes: every line with a
+/// byte that is neither blank nor ambiguous yields exactly one entry, equal to what
+/// `PlistEntry::from_bytes` gives for that line alone (an error there rejects the list); blank
+/// lines yield nothing; a line of blanks and ambiguous bytes only may yield nothing or its
+/// own entry.  No reference model is involved.
+fn check_text_self(t: &mut Tally, text: &[u8]) {
+    t.evals += 1;
+    t.validated += 1;
+    let case = || json!({"text": bytes_json(text), "self_consistency": true});
+    let got = guard(|| Plist::from_bytes(text).map(|p| p.verif_entries().iter().map(plist_entry_model).collect::<Vec<_>>()).map_err(|_| ()));
+    let got = match got {
+        Ok(g) => g,
+        Err(m) => {
+            t.violation(Violation::new("self", case(), json!("returns"), json!(format!("panic: {}", m)), "PLIST parser panicked"));
+            return;
+        }
+    };
+    // per line: None = no entry, Some(Ok/Err) = the line's own parse; `optional` lines may be skipped
+    let mut lines: Vec<(bool, Result<_, ()>)> = vec![];
+    for line in text.split(|c| *c == b'\n') {
+        let solid = line.iter().any(|b| !matches!(*b, b' ' | b'\t') && !AMBIGUOUS.contains(b));
+        let any_ambiguous = line.iter().any(|b| AMBIGUOUS.contains(b));
+        if !solid && !any_ambiguous {
+            continue;
+        }
+        let own = guard(|| PlistEntry::from_bytes(line).map(|e| plist_entry_model(&e)).map_err(|_| ())).unwrap_or(Err(()));
+        lines.push((!solid, own));
+    }
+    // admissible results: choose for every optional line whether it is skipped
+    let opt: Vec<usize> = (0..lines.len()).filter(|i| lines[*i].0).collect();
+    let mut admissible = false;
+    let mut first_want = None;
+    for mask in 0u32..(1 << opt.len().min(8)) {
+        let mut want: Result<Vec<_>, ()> = Ok(vec![]);
+        for (i, (_, own)) in lines.iter().enumerate() {
+            if let Some(k) = opt.iter().position(|x| *x == i) {
+                if mask >> k & 1 == 1 {
+                    continue;
+                }
+            }
+            match (own, &mut want) {
+                (Ok(e), Ok(v)) => v.push(e.clone()),
+                (Err(()), _) => want = Err(()),
+                _ => {}
+            }
+        }
+        if first_want.is_none() {
+            first_want = Some(want.clone());
+        }
+        if want == got {
+            admissible = true;
+            break;
+        }
+    }
+    if admissible {
+        t.outcome(if got.is_ok() { "self/ok" } else { "self/err" });
+        t.nontrivial += 1;
+    } else {
+        t.violation(Violation::new("self", case(), json!(format!("{:?}", first_want)), json!(format!("{:?}", got)), "each entry must equal what parsing its line alone gives, one entry per line with a non-whitespace byte"));
+    }
+}
+
 const BYTES: [u8; 6] = [b'a', b'@', b' ', b'\t', b'\n', 0xe9];
 
 fn line_alphabet() -> Vec<Vec<u8>> {
@@ -104,6 +169,7 @@ fn replay(doc: &Value) -> Option<Violation> {
     let mut t = Tally::new();
     match doc["kind"].as_str() {
         Some("line") => check_line(&mut t, &bytes_from_json(&doc["case"]["line"])),
+        Some("self") => check_text_self(&mut t, &bytes_from_json(&doc["case"]["text"])),
         _ => check_text(&mut t, &bytes_from_json(&doc["case"]["text"])),
     }
     t.violations.into_iter().next()
@@ -209,6 +275,36 @@ fn main() {
             }
         }
         run.bound(format!("byte sweep: {} byte values in nine line positions", n));
+        run.merge(t);
+    }
+    // the ambiguous bytes (VT FF CR 0x85 0xA0) by self-consistency: every byte string of length
+    // <= 5 over {a, @, SP, LF, CR, VT}, and each ambiguous byte in the nine positions and at the
+    // end / start of every alphabet line
+    {
+        const B2: [u8; 6] = [b'a', b'@', b' ', b'\n', b'\r', 0x0b];
+        let l2 = run.pick(6, 7);
+        run.bound(format!("self-consistency: all {} byte strings of length <= {} over {{a, @, SP, LF, CR, VT}}; 5 ambiguous bytes x (nine positions + before/after every alphabet line)", seqs::count(6, l2), l2));
+        seqs::par_seqs(&run, "C14 self", B2.len(), l2, 3, |_| false, |s, t| {
+            let text: Vec<u8> = s.iter().map(|i| B2[*i]).collect();
+            check_text_self(t, &text);
+        });
+        let mut t = Tally::new();
+        for b in AMBIGUOUS {
+            let mut lines: Vec<Vec<u8>> = vec![
+                vec![b], vec![b, b'x'], vec![b'x', b], vec![b'@', b], [b"@cwd ".as_slice(), &[b]].concat(), [b"@cwd x".as_slice(), &[b]].concat(),
+                [b"@comment".as_slice(), &[b], b"x"].concat(), [b"@name ".as_slice(), &[b]].concat(), [b"f ".as_slice(), &[b]].concat(), vec![b' ', b], vec![b, b],
+            ];
+            for a in &alpha {
+                lines.push([a.as_slice(), &[b]].concat());
+                lines.push([&[b], a.as_slice()].concat());
+            }
+            for line in lines {
+                t.states += 1;
+                check_text_self(&mut t, &[b"a\n".as_slice(), &line, b"\nb\n"].concat());
+                check_text_self(&mut t, &line);
+                check_text_self(&mut t, &[line.as_slice(), b"\n"].concat());
+            }
+        }
         run.merge(t);
     }
     run.finish();
